@@ -77,6 +77,8 @@ func vStepTaker(role int, st StateType) {
 	// step is over the record names the state the swap rests in: a crash at any of these points is
 	// recovered from a state that knows what was done
 	zzverif.Assert(!w.effectStale, "C15.effects_run_on_a_current_record")
+	zzverif.Assert(!w.effectStale, "C06.effects_run_on_a_current_record") // the crash model of C06 rests on it
+	zzverif.Assert(!w.effectStale, "C13.effects_run_on_a_current_record") // the crash model of C13 rests on it
 	if act, err := sc.svc.GetActiveSwap(sc.id); err == nil && !w.storeFailed {
 		rec, ok := sc.env.store.recs[sc.id]
 		zzverif.Assert(ok && rec.Current == act.Current, "C15.record_names_resting_state")
@@ -84,6 +86,12 @@ func vStepTaker(role int, st StateType) {
 	// ---- C06 ----
 	zzverif.Assert(sc.vCoopCloseSends() == 0 || !w.payOut, "C06.no_coop_close_while_payment_may_be_out")
 	zzverif.Assert(!w.payOut || vC06PaidState(role, post), "C06.invariant_paid_implies_claiming_state")
+	// a taker that tried to claim keeps trying until the claim is out: a step in which a claim attempt was
+	// made never ends resting in ClaimSwap (the fault budget lets the next attempt succeed), unless the
+	// store failed
+	if w.spendAttempts > 0 && (post == State_SwapOutSender_ClaimSwap || post == State_SwapInReceiver_ClaimSwap) {
+		zzverif.Assert(w.storeFailed, "C06.paid_taker_keeps_claiming_until_it_succeeds")
+	}
 	// ---- C13: the anchor never changes once set ----
 	if liquid {
 		zzverif.Assert(pd.StartingBlockHeightSet && pd.StartingBlockHeight == anchor0, "C13.anchor_immutable")
